@@ -118,22 +118,26 @@ func (e *exact) measure(a, b int) lineM {
 	}
 	m.empty = s >= b
 	m.signed = s > b
-	m.negYZ = !m.signed && (m.Y.Sign() < 0 || m.Z.Sign() < 0)
+	m.negYZ = !m.signed && m.Z.Sign() < 0 // negative shrink: no meaningful measure
 	W := rat(e.pa.width)
 	delta := 1e-9 * (1 + e.absW + math.Abs(e.pa.width))
 	dShr := new(big.Rat).Sub(new(big.Rat).Add(W, m.Z), m.L)
-	dStr := new(big.Rat).Sub(m.L, new(big.Rat).Sub(W, new(big.Rat).Mul(rat(e.pa.p.tol), m.Y)))
+	yPos := m.Y // a line cannot be stretched by a negative amount
+	if yPos.Sign() < 0 {
+		yPos = new(big.Rat)
+	}
+	dStr := new(big.Rat).Sub(m.L, new(big.Rat).Sub(W, new(big.Rat).Mul(rat(e.pa.p.tol), yPos)))
 	m.shr, m.str = tri(dShr, delta), tri(dStr, delta)
 	m.exShr, m.exStr = dShr.Sign() >= 0, dStr.Sign() >= 0
 	d := new(big.Rat).Sub(W, m.L)
-	if df, _ := d.Float64(); m.Y.Sign() == 0 && math.Abs(df) <= delta {
+	if df, _ := d.Float64(); m.Y.Sign() <= 0 && math.Abs(df) <= delta {
 		m.rigidBand = true
 	}
 	switch d.Sign() {
 	case 0:
 		m.r = new(big.Rat)
 	case 1:
-		if m.Y.Sign() == 0 {
+		if m.Y.Sign() <= 0 { // nothing (positive) to stretch
 			m.kind = 1
 			m.rf = math.Inf(1)
 			q, _ := new(big.Rat).Quo(d, W).Float64()
@@ -315,11 +319,7 @@ func judge(c *hc.Ctx, pa para, res []brk, ok bool) {
 		if isForced(pa, i) {
 			nForced++
 			if !in[i] {
-				kind := "forced-break-skipped"
-				if !ok {
-					kind = "forced-break-skipped-by-overflow-fallback"
-				}
-				rep(kind, fmt.Sprintf("forced break at %d is not among the returned breakpoints %v", i, seq))
+				rep("forced-break-skipped", fmt.Sprintf("forced break at %d is not among the returned breakpoints %v", i, seq))
 				structOK = false
 				break
 			}
@@ -336,19 +336,7 @@ func judge(c *hc.Ctx, pa para, res []brk, ok bool) {
 	tab := map[[2]int]lineM{}
 	a := -1
 	relaxed := false
-	// A break made by the overflow fallback is recognisable in the output: Ratio 0, Fitness 1 and
-	// Demerits = previous Demerits + 1000. Lines that end or start at such a break are measured by
-	// the code with the raw running sum (known finding); any other line must be reported exactly.
-	fb := make([]bool, len(res)+1)
 	for i, b := range res {
-		pd := 0.0
-		if i > 0 {
-			pd = res[i-1].dem
-		}
-		fb[i+1] = !ok && b.ratio == 0 && b.fit == 1 && b.dem == pd+1000
-	}
-	for i, b := range res {
-		adj := fb[i] || fb[i+1]
 		m := e.measure(a, b.pos)
 		tab[[2]int{a, b.pos}] = m
 		if m.empty {
@@ -356,11 +344,7 @@ func judge(c *hc.Ctx, pa para, res []brk, ok bool) {
 		}
 		Lf, _ := m.L.Float64()
 		if math.Abs(b.width-Lf) > 1e-9*(1+e.absW) {
-			kind := "reported-width"
-			if adj {
-				kind = "reported-width-at-overflow-break"
-			}
-			rep(kind, fmt.Sprintf("line %d (%d,%d]: reported Width %v, natural width %v", i+1, a, b.pos, b.width, Lf))
+			rep("reported-width", fmt.Sprintf("line %d (%d,%d]: reported Width %v, natural width %v", i+1, a, b.pos, b.width, Lf))
 		}
 		inside := m.kind == 0 && m.shr > 0 && m.str > 0
 		outside := m.shr < 0 || m.str < 0
@@ -374,19 +358,11 @@ func judge(c *hc.Ctx, pa para, res []brk, ok bool) {
 			c.Count("skip:ratio-of-line-with-negative-stretch")
 		case inside:
 			if math.Abs(b.ratio-m.rf) > 1e-7*(1+math.Abs(m.rf)) {
-				kind := "reported-ratio"
-				if adj {
-					kind = "reported-ratio-at-overflow-break"
-				}
-				rep(kind, fmt.Sprintf("line %d (%d,%d]: reported Ratio %v, adjustment ratio %v", i+1, a, b.pos, b.ratio, m.rf))
+				rep("reported-ratio", fmt.Sprintf("line %d (%d,%d]: reported Ratio %v, adjustment ratio %v", i+1, a, b.pos, b.ratio, m.rf))
 			}
 		case outside:
 			if b.ratio != 0 {
-				kind := "reported-ratio-outside"
-				if adj {
-					kind = "reported-ratio-at-overflow-break"
-				}
-				rep(kind, fmt.Sprintf("line %d (%d,%d]: ratio %v outside [-1,Tolerance] but reported %v", i+1, a, b.pos, m.rf, b.ratio))
+				rep("reported-ratio-outside", fmt.Sprintf("line %d (%d,%d]: ratio %v outside [-1,Tolerance] but reported %v", i+1, a, b.pos, m.rf, b.ratio))
 			}
 		default:
 			c.Count("skip:ratio-at-boundary")
@@ -502,15 +478,14 @@ func judge(c *hc.Ctx, pa para, res []brk, ok bool) {
 		c.Count("skip:returned-line-before-first-box")
 		return
 	}
+	// Remaining known class: deactivation assumes that the least length L-Z of a line only grows with
+	// the break position; glue that shrinks by more than its width breaks that (outside the
+	// Knuth–Plass input assumptions). Failures in paragraphs with such glue and such a pair are
+	// classified separately; everything else is a violation.
 	cls := ""
-	if anySigned && e.signedHarm(legal, tab) {
-		// Known defect class: between two legal breaks without a box the code measures the "line" by
-		// negative sums; a negative stretch difference gives a negative ratio that deactivates the node.
-		cls = ":break-before-first-box"
-		c.Count("feature:break-before-first-box")
-	} else if e.nonMonotone(legal, tab) {
-		cls = ":nonmonotone-min-length"
-		c.Count("feature:nonmonotone-min-length")
+	if hasWideShrink(pa) && e.nonMonotone(legal, tab) {
+		cls = ":glue-shrink-exceeds-width"
+		c.Count("feature:glue-shrink-exceeds-width")
 	}
 	switch {
 	case bestStrict < math.Inf(1):
@@ -570,7 +545,7 @@ func judge(c *hc.Ctx, pa para, res []brk, ok bool) {
 // nonMonotone reports whether some line start a and legal breaks b < b' (b not forced, no forced
 // break between) exist such that the least length L-Z of the line a→b' is smaller than that of the
 // line a→b (by more than the margin), a→b cannot be shrunk to fit (or only exactly) and a→b' can.
-// Causes: a penalty with width at b (hyphen), or glue whose shrink exceeds its width.
+// Cause: glue whose shrink exceeds its width (a penalty's width is not counted).
 func (e *exact) nonMonotone(legal []int, tab map[[2]int]lineM) bool {
 	get := func(a, b int) lineM {
 		m, ok := tab[[2]int{a, b}]
@@ -589,7 +564,11 @@ func (e *exact) nonMonotone(legal []int, tab map[[2]int]lineM) bool {
 				continue
 			}
 			m := get(a, b)
-			Lf, _ := new(big.Rat).Sub(m.L, m.Z).Float64() // least length the line can be shrunk to
+			least := new(big.Rat).Sub(m.L, m.Z) // least length the line can be shrunk to, without the penalty width
+			if e.pa.items[b].Type == text.PenaltyType {
+				least.Sub(least, rat(e.pa.items[b].Width))
+			}
+			Lf, _ := least.Float64()
 			if m.shr >= 0 && Lf < over-delta {
 				return true
 			}
@@ -604,26 +583,10 @@ func (e *exact) nonMonotone(legal []int, tab map[[2]int]lineM) bool {
 	return false
 }
 
-// signedHarm reports whether some pair of legal breaks a < b without a box between them (the code
-// measures that "line" by negative sums) gets a ratio that deactivates the node at a (< -1) or
-// passes for a feasible line (within [-1, Tolerance]).
-func (e *exact) signedHarm(legal []int, tab map[[2]int]lineM) bool {
-	for _, a := range legal {
-		for _, b := range legal {
-			if b <= a {
-				continue
-			}
-			m, ok := tab[[2]int{a, b}]
-			if !ok {
-				m = e.measure(a, b)
-				tab[[2]int{a, b}] = m
-			}
-			if m.signed && m.kind <= 0 && m.rf <= e.pa.p.tol+eps {
-				return true
-			}
-			if isForced(e.pa, b) {
-				break
-			}
+func hasWideShrink(pa para) bool {
+	for _, it := range pa.items {
+		if it.Type == text.GlueType && it.Shrink > it.Width {
+			return true
 		}
 	}
 	return false
